@@ -31,8 +31,8 @@ ASSUMPTIONS = [
     "np.memmap inputs come back as plain arrays (documented); aliasing between arrays is not part of the statement",
 ]
 SHARDS = {"quick": 12, "thorough": 14}
-FLOORS = {"quick": {"round_trips": 3000, "mmap_loads": 400, "worker_runs": 60, "worker_memmapped_args": 20, "subclass_round_trips": 100},
-          "thorough": {"round_trips": 60000, "mmap_loads": 8000, "worker_runs": 900, "worker_memmapped_args": 300, "subclass_round_trips": 2000}}
+FLOORS = {"quick": {"arrays_spanning_several_read_chunks": 60, "round_trips": 3000, "mmap_loads": 400, "worker_runs": 60, "worker_memmapped_args": 20, "subclass_round_trips": 100},
+          "thorough": {"arrays_spanning_several_read_chunks": 1500, "arrays_spanning_several_write_chunks": 5, "round_trips": 60000, "mmap_loads": 8000, "worker_runs": 900, "worker_memmapped_args": 300, "subclass_round_trips": 2000}}
 CHILD = os.path.join(harness.VERIF, "checks", "c19_child.py")
 
 
@@ -53,6 +53,8 @@ _B = {}
 
 def shard_setup(tier):
     from vlib import budget
+    if tier == "thorough":
+        HUGE_P[0] = 0.02
     budget.cap_address_space(8 << 30)
     _B["cpu"] = budget.CpuBudget()
 
@@ -73,12 +75,24 @@ def run_case(case, ctx):
     {"roundtrip": run_roundtrip, "mmap": run_mmap, "workers": run_workers}[case["kind"]](case, ctx)
 
 
+BIG_P = [0.06]
+HUGE_P = [0.0]
+
+
 def gen_array(rng, kinds=None):
     import numpy as np
     from vlib import gen_np, np_userclasses
     dtype = rng.choice(gen_np.DTYPES)
     shape = rng.choice(gen_np.SHAPES)
     layout = rng.choice(gen_np.LAYOUTS)
+    if rng.random() < BIG_P[0] and dtype != "O":
+        # large enough to need several 256 KiB read chunks (and, rarely, more than one 16 MiB write chunk)
+        item = gen_np.np_dtype(dtype).itemsize
+        n = (300000 // item + rng.choice([1, 7, 1000])) * rng.choice([1, 1, 2, 3])
+        if rng.random() < HUGE_P[0]:
+            n = (17 << 20) // item + 3
+        shape = rng.choice([[n], [n // 200 + 1, 200], [3, n // 3 + 1]])
+        layout = rng.choice(["C", "F", "C", "sliced" if n < 400000 else "C"])
     a, eff = gen_np.make(rng, dtype, shape, layout)
     sub = "ndarray"
     r = rng.random()
@@ -202,6 +216,10 @@ def run_roundtrip(case, ctx):
                 ctx.violation("round-trip:container-shape", f"loaded object has another structure: {type(e).__name__}: {e}; {desc}", desc)
             if a.size:
                 ctx.sig((adesc["dtype"], adesc["shape"], adesc["layout"], adesc["subclass"], container, repr(compress), protocol, target))
+            if a.nbytes > (1 << 18):
+                ctx.count("arrays_spanning_several_read_chunks")
+            if a.nbytes > (16 << 20):
+                ctx.count("arrays_spanning_several_write_chunks")
             if case["i"] % 60 == 0 and combo == 0:
                 ctx.sample(desc)
     finally:
